@@ -220,6 +220,8 @@ _MOD = None
 def _worker_init(prop):
     global _MOD
     warnings.filterwarnings("ignore")
+    # defcon's __del__ methods run in arbitrary order at teardown and may raise; not our concern
+    sys.unraisablehook = lambda *a: None
     _MOD = importlib.import_module("props." + prop.lower())
 
 
